@@ -88,7 +88,8 @@ func Build(opt Options) (*Report, error) {
 
 	// pass 1: names of package-level map variables and of struct fields of map type.
 	mapVars := map[string]bool{}
-	mapFields := map[string]bool{}
+	mapFields := map[string]map[string]bool{} // field name -> struct type names that declare it as a map
+	topSpecs := map[*ast.ValueSpec]bool{}
 	isMapExpr := func(e ast.Expr) bool {
 		switch x := e.(type) {
 		case *ast.MapType:
@@ -113,6 +114,7 @@ func Build(opt Options) (*Report, error) {
 			for _, sp := range gd.Specs {
 				switch s := sp.(type) {
 				case *ast.ValueSpec:
+					topSpecs[s] = true
 					if gd.Tok != token.VAR {
 						continue
 					}
@@ -128,7 +130,10 @@ func Build(opt Options) (*Report, error) {
 						for _, fl := range st.Fields.List {
 							if _, ok := fl.Type.(*ast.MapType); ok {
 								for _, nm := range fl.Names {
-									mapFields[nm.Name] = true
+									if mapFields[nm.Name] == nil {
+										mapFields[nm.Name] = map[string]bool{}
+									}
+									mapFields[nm.Name][s.Name.Name] = true
 								}
 							}
 						}
@@ -198,7 +203,21 @@ func Build(opt Options) (*Report, error) {
 		var curFunc string
 		for _, d := range file.f.Decls {
 			fd, ok := d.(*ast.FuncDecl)
+			varType := map[string]string{} // identifiers of this function whose struct type is written out
 			if ok {
+				note := func(fl *ast.FieldList) {
+					if fl == nil {
+						return
+					}
+					for _, f := range fl.List {
+						tn := recvName(f.Type)
+						for _, nm := range f.Names {
+							varType[nm.Name] = tn
+						}
+					}
+				}
+				note(fd.Recv)
+				note(fd.Type.Params)
 				curFunc = fd.Name.Name
 				if fd.Recv != nil && len(fd.Recv.List) > 0 {
 					curFunc = recvName(fd.Recv.List[0].Type) + "." + curFunc
@@ -232,12 +251,20 @@ func Build(opt Options) (*Report, error) {
 					name := ""
 					switch e := x.X.(type) {
 					case *ast.Ident:
-						if mapVars[e.Name] && e.Obj == nil || (e.Obj != nil && mapVars[e.Name] && e.Obj.Kind == ast.Var && isPkgLevel(e.Obj)) {
-							name = e.Name
+						if mapVars[e.Name] {
+							// the package-level variable itself, not a local of the same name
+							if e.Obj == nil {
+								name = e.Name
+							} else if vs, ok := e.Obj.Decl.(*ast.ValueSpec); ok && topSpecs[vs] {
+								name = e.Name
+							}
 						}
 					case *ast.SelectorExpr:
-						if mapFields[e.Sel.Name] {
-							name = e.Sel.Name
+						// x.field where x is the receiver or a parameter whose struct type declares field as a map
+						if owners := mapFields[e.Sel.Name]; owners != nil {
+							if id, ok := e.X.(*ast.Ident); ok && owners[varType[id.Name]] {
+								name = e.Sel.Name
+							}
 						}
 					}
 					if name != "" {
@@ -308,15 +335,6 @@ func Build(opt Options) (*Report, error) {
 	return rep, nil
 }
 
-func isPkgLevel(o *ast.Object) bool {
-	// go/parser resolves only file-local objects; a package-level var declared in
-	// this same file has Decl of type *ast.ValueSpec, as has a local `var`. We
-	// accept both: a local map variable shadowing a package-level map variable of
-	// the same name does not occur in practice and would still be a map.
-	_, ok := o.Decl.(*ast.ValueSpec)
-	return ok
-}
-
 func recvName(e ast.Expr) string {
 	switch x := e.(type) {
 	case *ast.StarExpr:
@@ -381,6 +399,7 @@ package slog
 
 import (
 	"cmp"
+	"fmt"
 	"iter"
 	"slices"
 	"sync"
@@ -444,7 +463,7 @@ func (p *verifPool) Put(x any) {
 // nil for "sorted".
 var VerifMapOrder func(site string, n int) []int
 
-func verifOrdered[K cmp.Ordered, V any](site string, m map[K]V) iter.Seq2[K, V] {
+func verifOrdered[K comparable, V any](site string, m map[K]V) iter.Seq2[K, V] {
 	return func(yield func(K, V) bool) {
 		h := VerifMapOrder
 		if h == nil {
@@ -459,7 +478,8 @@ func verifOrdered[K cmp.Ordered, V any](site string, m map[K]V) iter.Seq2[K, V] 
 		for k := range m {
 			keys = append(keys, k)
 		}
-		slices.Sort(keys)
+		// a canonical order for any comparable key type: by printed form, ties by nothing (distinct keys print differently)
+		slices.SortFunc(keys, func(a, b K) int { return cmp.Compare(fmt.Sprint(a), fmt.Sprint(b)) })
 		perm := h(site, len(keys))
 		for i := range keys {
 			j := i
